@@ -11,7 +11,7 @@ empty input.
 `run {} cfg ms` is the model of the node as the code is today (Kap/Model/C11.lean, Quirks all false);
 `Spec.spec cfg ms` is the stateless statement of the property (Kap/Spec/C11.lean).
 -/
-import Kap.Proofs.C11Batch
+import Kap.Proofs.C11Stream
 namespace Kap.Props.C11
 open Kap.C11 Kap.C11.Spec
 
@@ -40,5 +40,78 @@ spec's. -/
 theorem batches_refine_spec (cfg : Cfg) (hT : cfg.fn.isTransformation = false) (ms : List Msg)
     (hb : allBatches ms) : run {} cfg ms = spec cfg ms :=
   runFrom_batches cfg hT ms hb {} [] (cacheInv_init cfg)
+
+
+/-! ### Stream mode -/
+
+/-- **Emitted aggregates ↔ maximal runs of equal time**: for every history of stream points (all groups
+interleaved, times in any order) the node emits, exactly when a group's time changes, the aggregate of that
+group's maximal run of equal-time points that just ended — over exactly that run — and nothing else; the
+last run of every group stays pending. -/
+theorem stream_runs (cfg : Cfg) (hT : cfg.fn.isTransformation = false) (ms : List Msg) (hp : allPoints ms) :
+    run {} cfg ms = spec cfg ms :=
+  runFrom_points cfg hT ms hp {} [] (sinv_init cfg)
+
+/-- The state behind `stream_runs`: after ANY history the group table holds, per group, the time of its last
+point and the context realised over its last run — nothing older. -/
+theorem stream_state_is_last_run (cfg : Cfg) (hT : cfg.fn.isTransformation = false) (before : List Msg)
+    (n : NodeSt) (g : Tags) (p : Pt) (h : SInv cfg before n) :
+    SInv cfg (before ++ [.point g p]) (stepPoint {} cfg n g p).1 :=
+  (stepPoint_spec cfg hT before n g p h).2
+
+/-! ### No panic -/
+
+/-- With today's code no history of batches makes a reducer emit without a point (the `panic` outcomes of
+`reduce` are unreachable). -/
+theorem no_panic_batches (cfg : Cfg) (hT : cfg.fn.isTransformation = false) (ms : List Msg) (hb : allBatches ms) :
+    Out.panic ∉ run {} cfg ms := by
+  rw [batches_refine_spec cfg hT ms hb]
+  exact spec_no_panic cfg ms
+
+theorem no_panic_stream (cfg : Cfg) (hT : cfg.fn.isTransformation = false) (ms : List Msg) (hp : allPoints ms) :
+    Out.panic ∉ run {} cfg ms := by
+  rw [stream_runs cfg hT ms hp]
+  exact spec_no_panic cfg ms
+
+/-! ### The defects of snapshot ef0888e, on the model of the old code (each replayed on the real code by the
+corpus file named; each repaired by a `fix:` commit, see findings/C11.txt) -/
+
+def ga : Tags := [("g", "a")]
+def ipt (t v : Int) : Pt := { time := t, tags := ga, fields := [("v", .int v)] }
+def spt (t : Int) (s : String) : Pt := { time := t, tags := ga, fields := [("v", .str s)] }
+
+/-- Defect 1 (repaired by d326602): with the Time-0 seeds of snapshot ef0888e, `sum('v').usePointTimes()` stamps
+the sum with 1970-01-01 instead of the batch time (corpus/C11/fixed-seed-time-zero.ops). -/
+theorem snapshot_seed_time_counterexample :
+    ∃ (cfg : Cfg) (ms : List Msg), run { seedTimeZero := true } cfg ms ≠ spec cfg ms :=
+  ⟨{ fn := .sum, as_ := "x", pointTimes := true }, [.batch { gtags := ga, tmax := 10, pts := [ipt 1 1, ipt 2 2] }], by decide⟩
+
+/-- Defect 2 (repaired by cce1e44): with the stale creator cache a batch of strings after a batch of ints emits
+`sum = 0` typed int — a value typed by an EARLIER batch (corpus/C11/fixed-stale-createfn.ops). -/
+theorem snapshot_stale_creator_counterexample :
+    ∃ (cfg : Cfg) (ms : List Msg), run { staleCreateFn := true } cfg ms ≠ spec cfg ms :=
+  ⟨{ fn := .sum, as_ := "sum" },
+   [.batch { gtags := ga, tmax := 10, pts := [ipt 1 1, ipt 2 2] },
+    .batch { gtags := ga, tmax := 20, pts := [spt 11 "x", spt 12 "y"] }], by decide⟩
+
+/-- … and for a reducer without a seed (max) the same history dereferences nil in `Emit`. -/
+theorem snapshot_stale_creator_panics :
+    ∃ (cfg : Cfg) (ms : List Msg), Out.panic ∈ run { staleCreateFn := true } cfg ms :=
+  ⟨{ fn := .max, as_ := "max" },
+   [.batch { gtags := ga, tmax := 10, pts := [ipt 1 1] },
+    .batch { gtags := ga, tmax := 20, pts := [spt 11 "x", spt 12 "y"] }], by decide⟩
+
+/-- Defect 3 (repaired by 2f9187b): a stream point without the field made cumulativeSum emit its previous
+result a second time (corpus/C11/fixed-transform-emit-after-failed-aggregate.ops). -/
+theorem snapshot_reemit_counterexample :
+    ∃ (cfg : Cfg) (ms : List Msg), run { emitAfterFailedAgg := true } cfg ms ≠ spec cfg ms :=
+  ⟨{ fn := .cumulativeSum, as_ := "c" },
+   [.point ga (ipt 1 1), .point ga { time := 2, tags := ga, fields := [("w", .int 1)] }], by decide⟩
+
+/-- Defect 4 (repaired by 70edbcf): mode of ONE point under usePointTimes was stamped with the point's time
+(corpus/C11/fixed-single-point-time.ops). -/
+theorem snapshot_single_point_time_counterexample :
+    ∃ (cfg : Cfg) (ms : List Msg), run { singleKeepsTime := true } cfg ms ≠ spec cfg ms :=
+  ⟨{ fn := .mode, as_ := "mode", pointTimes := true }, [.batch { gtags := ga, tmax := 20, pts := [ipt 13 7] }], by decide⟩
 
 end Kap.Props.C11
